@@ -117,9 +117,10 @@ def run_driver(ctx, scens, tag="t", udp=False):
         extra = vlib.read_ndjson(tu)
         ev.append({"ev": "Begin", "scen": nscen + 1, "origin": "udp-sources-localhost", "producer": "udp-sources"})
         gated = [e for e in extra if e["ev"] == "UDPGated"]
-        if not gated or gated[0]["gated"] < 1:
+        starts_ok = all(e.get("err", "") == "" for e in extra if e["ev"] == "UDPStep" and e.get("scen") == 1 and e["step"] == "restart")
+        if (not gated or gated[0]["gated"] < 1) and starts_ok:   # (when the restarts themselves fail, the trace says so: let it be judged)
             raise vlib.MachineryError("abaco udp driver: the receiver goroutine never reached its gate (hook AbacoUDP.loop missing?)")
-        ctx.notes["abaco_udp_gated_stops"] = gated[0]["gated"]
+        ctx.notes["abaco_udp_gated_stops"] = gated[0]["gated"] if gated else 0
         for e in extra:
             if e["ev"] == "UDPGated":
                 continue
